@@ -910,7 +910,7 @@ def scenario_campaign(ch, tr, st):
         ev.n = 1 + ch.weighted([2, 3, 3, 2, 1], "ncases")
         ev.jorder = ch.perm(ev.n, "jperm") if jperm_on else list(range(ev.n))
         ev.done = []  # list of (j, casename)
-        ev.h = h
+        ev.h = h / 2 if (e > 0 and ch.flip(1, 3, "event_own_step")) else h  # events need not share a time step
         ev.xfixed = None
         ev.mod = mod.revalue(rng) if (model_varies and e > 0) else mod
         ev.peak_factor = 3.0
@@ -1192,7 +1192,7 @@ def op_recover(M, ch, tr, st, rng, mod, ev, h, nan_on, ties_on):
     k = len(ev.done)
     j = ev.jorder[k]
     case = f"{ev.name}c{k}"
-    sol, x, quant, nanned = _draw_sol(ch, rng, mod, ev, h, nan_on, ties_on)
+    sol, x, quant, nanned = _draw_sol(ch, rng, mod, ev, ev.h, nan_on, ties_on)
     if nanned is not None:
         st.fault("nan_cells")
 
